@@ -58,12 +58,23 @@ class RetentionFamily:
             if how in ('error', 'abort', 'skip') and rng.random() < 0.5:
                 action = how
             ops += [{'op': 'act', 'target': {'pid': p, 'kind': 'act', 'state': 'interrupted', 'occ': rng.choice([0, -1])}, 'action': action, 'options': {'ecode': 'e1'}}, {'op': 'quiesce'}, {'op': 'snapshot', 'level': 'all'}]
+        if rng.random() < opts.get('burst', 0.3):
+            # processes that end by themselves, started back to back: with a small cache the earlier ones have left the LRU
+            # when they end
+            nb = rng.randint(3, 8)
+            ops += [{'op': 'starts', 'items': [{'mid': 'mt', 'vars': {'pid': f'q{i}'}} for i in range(nb)], 'threads': rng.choice([1, 1, 2])}, {'op': 'quiesce'}, {'op': 'snapshot', 'level': 'all'}]
+        if rng.random() < opts.get('big', 0.06):
+            # a process with well over a hundred task rows
+            ops += [{'op': 'start', 'mid': 'mbig', 'vars': {'pid': 'big'}}, {'op': 'quiesce'}, {'op': 'snapshot', 'level': 'all'}]
         # probe: further actions on every process (ended ones must refuse)
         for p in pids:
             ops += [{'op': 'act', 'target': {'pid': p, 'tid': '$'}, 'action': 'next'}, {'op': 'api', 'what': 'proc_get', 'pid': p}]
         ops += [{'op': 'quiesce'}, {'op': 'snapshot', 'level': 'all'}]
         rt = rng.choice([{'flavor': 'current'}, {'flavor': 'current', 'chaos': {'max_yields': 3, 'seed': rng.randrange(1, 1 << 40)}}, {'flavor': 'multi', 'workers': 2, 'chaos': {'max_yields': 2, 'seed': rng.randrange(1, 1 << 40)}}])
-        sc = {'id': '', 'family': 'retention', 'sched': f"{rt['flavor']}-{store}-{'keep' if keep else 'default'}", 'runtime': rt, 'engine': {'store': store, 'keep_processes': keep}, 'models': [json.dumps(m) for m in models],
+        cap = rng.choice([1024, 1024, 1, 2])
+        tiny = {'id': 'mt', 'steps': [{'id': 'st', 'acts': [{'id': 'at', 'uses': MSG, 'key': 'mt'}]}]}
+        big = {'id': 'mbig', 'steps': [{'id': f'bs{i}', 'acts': [{'id': f'ba{i}', 'uses': MSG, 'key': 'mb'}]} for i in range(rng.randint(55, 80))]}
+        sc = {'id': '', 'family': 'retention', 'sched': f"{rt['flavor']}-{store}-{'keep' if keep else 'default'}-cap{cap}", 'runtime': rt, 'engine': {'store': store, 'keep_processes': keep, 'cache_cap': cap}, 'models': [json.dumps(m) for m in models] + [json.dumps(tiny), json.dumps(big)],
               'channels': [{'id': 'main', 'ack': True}], 'responder': {'rules': []}, 'ops': ops, 'watchdog_ms': 60000}
         return {'scenarios': [sc], 'meta': {'keep': keep, 'store': store, 'pids': pids, 'models': models}, 'digest': digest([models, ops, keep, store]), 'nontrivial': True}
 
@@ -110,11 +121,12 @@ class RetentionFamily:
                 pseq, pi, ps = prev
                 op_between = [sc['ops'][j] for j in range(pi + 1, i)]
                 actor = next((o['target']['pid'] for o in op_between if o['op'] == 'act'), None)
+                started = {it['vars']['pid'] for o in op_between if o['op'] == 'starts' for it in o['items']} | {o['vars']['pid'] for o in op_between if o['op'] == 'start'}
                 rm_model = next((o['id'] for o in op_between if o['op'] == 'model_rm'), None)
                 # rows of processes that did not act are untouched
                 for kind in ('procs', 'tasks'):
-                    a = {r['id']: r for r in ps[kind] if (r['id'] if kind == 'procs' else r['pid']) != actor}
-                    b = {r['id']: r for r in s[kind] if (r['id'] if kind == 'procs' else r['pid']) != actor}
+                    a = {r['id']: r for r in ps[kind] if (r['id'] if kind == 'procs' else r['pid']) != actor and (r['id'] if kind == 'procs' else r['pid']) not in started}
+                    b = {r['id']: r for r in s[kind] if (r['id'] if kind == 'procs' else r['pid']) != actor and (r['id'] if kind == 'procs' else r['pid']) not in started}
                     obs['c17.bystander-row-compares'] += len(a)
                     if a != b:
                         gone = sorted(set(a) - set(b))
